@@ -2430,6 +2430,30 @@ theorem C04_nextName_sorted (xs : List String) (h : xs.Pairwise (· < ·)) (i : 
       simp
 
 
+/-
+NOT PROVED (full statement kept; covered by the differential check of `harness`):
+
+theorem C04_iter_loop (img : Image) (P0 : Nat) (b : List Instr) (lv : String)
+    (hc : CodeAt img P0 (unG (assembleLoop ([.moveq (.int 0) counter] ++ iterLights) counterTest
+      [.pop (.var lv)] (ins b) (loopPost none))))
+    (s : State) (hs : s.status = .running) (hpc : s.pc = (P0 : Int))
+    (hdir : (s.regs .discForward).truthy = false) (hne : "" ∉ s.lightNames)
+    (hconst : s.constants.get lv = none) (hscope : ScopeOk s.stack) (hok : BodyOkV img b lv) :
+    ∃ (ts : List State) (s' : State),
+      ts.length = s.lightNames.length ∧
+      (∀ k (hk : k < ts.length), ts[k].getVariable lv = .str (s.lightNames[k]'(by omega))) ∧
+      (∃ k, run img k s = exitLoop (P0 + …) s') ∧ (exitLoop (P0 + …) s').eval = s.eval
+
+i.e. the discovery prologue `iterLights` walks `SortedList.prev` from the last name
+(`C04_prevName_sorted`), pushing every name of `lightNames` once — the first name ends on top —
+and counting them in the hidden counter; each pass pops the next name into `lv`.  What is proved
+of it: the names and their order at source level (`C04_lightNames`, `C04_groupLights`,
+`C04_iter_names_order`), the walk itself on lists (`C04_prevName_sorted`, `C04_nextName_sorted`),
+the counted loop around it (`C04_count_loop…`), and that a `break` restores the evaluation stack
+so that an enclosing iteration's pending names survive (`C04_break_innermost`); the nested
+concrete run `exNested` below exercises all of it on the model VM.
+-/
+
 section IterNames
 open Sem
 
